@@ -1,10 +1,13 @@
 SPECIFICATION Spec
 CONSTANTS
   N = 3
+  Timed = {0, 1}
   MaxTerm = 2
+  MaxEl = 2
+  MaxHb = 2
   MaxReq = 1
-  MaxNet = 4
-  MaxDup = 1
+  MaxNet = 8
+  MaxDup = 2
   MaxBatch = 2
   EMIT = FALSE
   Depth = 0
